@@ -1,6 +1,7 @@
 package main
 
 import (
+	"unicode/utf8"
 	"os"
 	"fmt"
 	"go/constant"
@@ -1046,13 +1047,12 @@ func (w *Worker) iterNext(it *RangeIter, instr *ssa.Next) Value {
 		if it.pos >= len(it.s.S) {
 			return TupleV{tt.Bool(false), tt.BV(64, 0), tt.BV(32, 0)}
 		}
-		for i, r := range it.s.S[it.pos:] {
-			_ = i
+		{
+			// exactly Go's semantics: an invalid encoding yields U+FFFD with
+			// width 1, a correctly encoded U+FFFD has width 3
+			r, size := utf8.DecodeRuneInString(it.s.S[it.pos:])
 			p := it.pos
-			it.pos += len(string(r))
-			if r == 0xFFFD {
-				it.pos = p + 1
-			}
+			it.pos += size
 			return TupleV{tt.Bool(true), tt.BV(64, uint64(p)), tt.BV(32, uint64(r))}
 		}
 	}
